@@ -281,5 +281,5 @@ func checkC11(rc *RunCtx) {
 	hz := []time.Duration{24*time.Hour + time.Millisecond, time.Second}
 	focusedDFS(rc, "slash-dfs", Config{}, false, prep, keep, gaps, mons, depth, hz)
 	focusedDFS(rc, "slash-dfs-maxval2", Config{ValStakes: []int64{5000, 3000, 2900}, MaxValidators: 2}, false, prep, keep, gaps, mons, depth, hz)
-	runSkeletons(rc, mons, kOf(rc))
+	runSkeletons(rc, mons, kOf(rc), skDispute...)
 }
